@@ -8,7 +8,7 @@ props = [json.loads(l) for l in open(os.path.join(HERE, "properties.jsonl"))]
 CLAIMED = {
  "C04": ("template-variant instantiation + builder-derived skeleton type-check (go/types), AST/constant rules",
          "Sound static decision of the stated structural clauses: all 32 template variants type-check against everything builder.go can emit; method-name injectivity; definition/reference wiring; Unicode class tables resolve. These are necessary conditions of 'every accepted grammar yields Go that compiles and initialises' that hold for every grammar because they are facts about the compiler and the runtime template, not about one grammar.",
-         "Not decided: user code blocks, goimports, label clashes after -optimize-grammar inlining. Trusted: text/template, go/parser, go/types, go vet.",
+         "Not decided: user code blocks, goimports. Decided since round 19: one parameter per label name in a scope (C04-o; finding F30 repaired). Trusted: text/template, go/parser, go/types, go vet.",
          "DESIGN.md §3 C04"),
 }
 CLAIMED["C01"] = ("typestate abstract interpretation over go/cfg of all parse<Kind> methods in the 16 semantic template variants vs. a per-kind specification table; dispatch exhaustiveness",
@@ -61,7 +61,7 @@ CLAIMED["C07"] = ("per-kind obligation table for InitialNames / NullableVisit / 
  "DESIGN.md §3 C07")
 CLAIMED["C09"] = ("ownership rule (clone before in-place mutation) from type-resolved stores, side-condition extraction from the merge switch, traversal exhaustiveness, dominance of rule removal by the protection test",
  "Sound static decision of necessary conditions of language preservation: no shared mutable structure between inlined copies, class merging only for non-inverted classes with equal flags, all kinds traversed, entrypoints protected (findings F1, F3, F4 repaired).",
- "Not decided: semantic equivalence of each rewrite beyond its side conditions; label/scope effects of inlining.",
+ "Not decided: semantic equivalence of each rewrite beyond its side conditions. The label scope of inlined rules is decided (C09-k; finding F31, known).",
  "DESIGN.md §3 C09")
 CLAIMED["C13"] = ("enumeration of crash constructs discharged by reasons with machine-checked side conditions; exit-code discipline on main's syntax tree; string-shape abstract interpretation of delimiter-stripping slices against the texts the front-end grammar literal can hand over; re-evaluation pattern on the grammar literal",
  "Sound static decision of panic-freedom of the generator for the enumerated construct classes and of the exit-code contract (findings F1, F2 repaired).",
